@@ -780,40 +780,11 @@ func genCase(t *rapid.T, g genOpts) kase {
 			c.Known = append(c.Known, tp.host+"/*")
 		}
 	}
-	valueOf := func(n int) string { return fmt.Sprintf("%d", n) }
 	span := c.Threshold + 3
-	nItems := rapid.IntRange(1, g.maxItems).Draw(t, "nitems")
-	for it := 0; it < nItems && len(c.Recs) < maxRecs; it++ {
-		tp := tmpls[rapid.IntRange(0, nT-1).Draw(t, "tmpl")]
-		ns := tp.slots()
-		base := make([]int, ns)
-		odd := make([]string, ns)
-		for j := range base {
-			base[j] = rapid.IntRange(0, span).Draw(t, "id")
-			if rapid.IntRange(0, 11).Draw(t, "odd") == 0 {
-				odd[j] = rapid.SampledFrom(oddValues).Draw(t, "oddv")
-			}
-		}
-		burst := 1
-		vary := 0
-		if ns > 0 && rapid.IntRange(0, g.burstOneIn-1).Draw(t, "isburst") == 0 {
-			burst = rapid.IntRange(g.burstMin(c.Threshold), c.Threshold+2).Draw(t, "burst")
-			vary = rapid.IntRange(0, ns-1).Draw(t, "vary")
-		}
-		for b := 0; b < burst && len(c.Recs) < maxRecs; b++ {
-			vals := make([]string, ns)
-			for j := range vals {
-				v := base[j]
-				if j == vary {
-					v += b
-				}
-				vals[j] = valueOf(v)
-				if odd[j] != "" && b == 0 {
-					vals[j] = odd[j]
-				}
-			}
-			r := rec{U: tp.url(vals)}
-			if rapid.IntRange(0, 19).Draw(t, "slash") == 0 {
+	recGen := func(url string) *rapid.Generator[rec] {
+		return rapid.Custom(func(t *rapid.T) rec {
+			r := rec{U: url}
+			if rapid.IntRange(0, 19).Draw(t, "slash") == 19 {
 				r.U += "/"
 			}
 			r.M = rapid.SampledFrom([]string{"GET", "GET", "GET", "POST", "POST", "DELETE"}).Draw(t, "method")
@@ -823,8 +794,49 @@ func genCase(t *rapid.T, g genOpts) kase {
 			r.T = 1_700_000_000_000 + int64(rapid.OneOf(rapid.IntRange(0, 3000), rapid.IntRange(0, 5_000_000)).Draw(t, "ts"))
 			r.C = rapid.SampledFrom([]string{"", "", "a", "b"}).Draw(t, "consumer")
 			r.I = rapid.SampledFrom([]string{"lunar-aiohttp-interceptor/2.0.2", "lunar-aiohttp-interceptor/2.0.2", "lunar-py/1.0", "", "bad", "a/b/c"}).Draw(t, "interceptor")
-			r.In = rapid.IntRange(0, 9).Draw(t, "internal") == 0
-			c.Recs = append(c.Recs, r)
+			r.In = rapid.IntRange(0, 9).Draw(t, "internal") == 9
+			return r
+		})
+	}
+	// one stream item: a single record, or a burst of records with consecutive ids in one slot
+	itemGen := rapid.Custom(func(t *rapid.T) []rec {
+		tp := tmpls[rapid.IntRange(0, nT-1).Draw(t, "tmpl")]
+		ns := tp.slots()
+		base := make([]int, ns)
+		odd := make([]string, ns)
+		for j := range base {
+			base[j] = rapid.IntRange(0, span).Draw(t, "id")
+			if rapid.IntRange(0, 11).Draw(t, "odd") == 11 {
+				odd[j] = rapid.SampledFrom(oddValues).Draw(t, "oddv")
+			}
+		}
+		burst, vary := 1, 0
+		if ns > 0 && rapid.IntRange(0, g.burstOneIn-1).Draw(t, "isburst") == g.burstOneIn-1 {
+			burst = rapid.IntRange(g.burstMin(c.Threshold), c.Threshold+2).Draw(t, "burst")
+			vary = rapid.IntRange(0, ns-1).Draw(t, "vary")
+		}
+		out := []rec{}
+		for b := 0; b < burst; b++ {
+			vals := make([]string, ns)
+			for j := range vals {
+				v := base[j]
+				if j == vary {
+					v += b
+				}
+				vals[j] = fmt.Sprintf("%d", v)
+				if odd[j] != "" && b == 0 {
+					vals[j] = odd[j]
+				}
+			}
+			out = append(out, recGen(tp.url(vals)).Draw(t, "rec"))
+		}
+		return out
+	})
+	for _, item := range rapid.SliceOfN(itemGen, 1, g.maxItems).Draw(t, "items") {
+		for _, r := range item {
+			if len(c.Recs) < maxRecs {
+				c.Recs = append(c.Recs, r)
+			}
 		}
 	}
 	n := len(c.Recs)
@@ -835,7 +847,7 @@ func genCase(t *rapid.T, g genOpts) kase {
 	}
 	c.CutsA = cut("cutsA")
 	c.CutsB = cut("cutsB")
-	if len(c.CutsB) > 0 && rapid.IntRange(0, 2).Draw(t, "restarts") == 0 {
+	if len(c.CutsB) > 0 && rapid.IntRange(0, 2).Draw(t, "restarts") == 2 {
 		c.Restart = make([]bool, len(c.CutsB))
 		for i := range c.Restart {
 			c.Restart[i] = rapid.IntRange(0, 1).Draw(t, "restart") == 1
